@@ -24,6 +24,7 @@ type Env struct {
 	pkg    string
 	depth  int
 	bound  map[string]bool // quantifier-bound names
+	inOld  bool            // evaluating inside old(...)
 }
 
 func (e *Env) with(st *State) *Env {
@@ -280,6 +281,16 @@ func (env *Env) ident(name string) Val {
 			if phi.Comment == name {
 				if _, bound := env.bound[name]; !bound {
 					return env.fr.vals[phi]
+				}
+			}
+		}
+	}
+	if env.fr != nil && env.header != nil && !env.inOld {
+		// an address-taken copy of a by-value parameter: the invariant speaks about its current content
+		if _, isParam := env.vars[name]; isParam {
+			if _, bound := env.bound[name]; !bound {
+				if p, ok := env.frameAddr(name); ok {
+					return env.c.loadStruct(env.cur, p.typ, p.ref)
 				}
 			}
 		}
@@ -925,7 +936,9 @@ func (env *Env) callExpr(x *ECall) Val {
 	boolT := types.Typ[types.Bool]
 	switch name {
 	case "old":
-		return env.with(env.old).eval(x.Args[0])
+		o := env.with(env.old)
+		o.inOld = true
+		return o.eval(x.Args[0])
 	case "pre":
 		if env.loopIn == nil {
 			sfail("pre() outside a loop invariant")
@@ -1039,6 +1052,19 @@ func (env *Env) callExpr(x *ECall) Val {
 		return env.typed(r, rt)
 	}
 	if u := c.DB.Ufs[name]; u != nil {
+		if !c.ufs["axioms/"+name] {
+			c.ufs["axioms/"+name] = true
+			for _, ax := range c.DB.Axioms {
+				if ax.UF == name {
+					aenv := &Env{c: c, pkg: ax.Pkg, vars: map[string]Val{}, cur: c.st0, old: c.st0}
+					if aenv.cur == nil {
+						aenv.cur, aenv.old = env.cur, env.old
+					}
+					c.emit("(assert " + aenv.evalB(ax.E) + ")")
+					c.note("definitional axiom for " + name + ": " + ax.Text)
+				}
+			}
+		}
 		var ts, ss []string
 		sub := &Env{c: c, pkg: u.Pkg, vars: map[string]Val{}}
 		for i, b := range u.Params {
@@ -1147,7 +1173,20 @@ func (env *Env) quant(x *EQuant) Val {
 	var decls []string
 	for _, b := range x.Vars {
 		t := env.resolveType(b.T)
-		if classOf(t) == CStruct || classOf(t) == CSlice || classOf(t) == CIface {
+		if cl := classOf(t); cl == CStruct || cl == CSmallArr {
+			// a value-typed binder (Mask, Entity): one bound variable per scalar leaf
+			tmpl := env.c.zeroVal(t)
+			var names []string
+			for _, s := range flatSorts(tmpl) {
+				n := env.c.uniq("q." + b.Name)
+				names = append(names, n)
+				decls = append(decls, "("+n+" "+s+")")
+			}
+			p := 0
+			e = e.bind(b.Name, rebuild(tmpl, names, &p))
+			continue
+		}
+		if classOf(t) == CSlice || classOf(t) == CIface {
 			sfail("quantified variable %s of composite type", b.Name)
 		}
 		n := env.c.uniq("q." + b.Name)
